@@ -34,6 +34,7 @@ type vhEnv struct {
 	smOut     chan tmeil.StateMachineRoundView
 	fetchReq  chan tmelink.ProposedHeaderFetchRequest
 	initialHeight uint64
+	panicsAreViolations bool
 }
 
 // vhNewEnv builds a kernel at genesis (voting at initialHeight round 0, no committing view).
